@@ -741,13 +741,16 @@ def der_decode_partial(data: bytes) -> Tuple[object, int]:
     if end > len(data):
         raise ASN1DecodeError('Incomplete data')
 
-    if asn1_class == UNIVERSAL and tag in _der_class_by_tag:
-        cls = _der_class_by_tag[tag]
-        value = cls.decode(constructed, content)
-    elif constructed:
-        value = TaggedDERObject(tag, der_decode(content), asn1_class)
-    else:
-        value = RawDERObject(tag, content, asn1_class)
+    try:
+        if asn1_class == UNIVERSAL and tag in _der_class_by_tag:
+            cls = _der_class_by_tag[tag]
+            value = cls.decode(constructed, content)
+        elif constructed:
+            value = TaggedDERObject(tag, der_decode(content), asn1_class)
+        else:
+            value = RawDERObject(tag, content, asn1_class)
+    except RecursionError:
+        raise ASN1DecodeError('ASN.1 value nested too deeply') from None
 
     return value, end
 
